@@ -305,6 +305,14 @@ func c05EmptyRoot(e *Env) {
 	run := e.Run
 	for k, spell := range []string{"/", "", "/.", "//", "/x/..", ".", "/./"} {
 		root := e.Dir(fmt.Sprintf("W/emptyroot%d", k))
+		if k%2 == 1 {
+			// the root is spelled through a symbolic link (which lives outside the root) to a directory that
+			// is not empty: the link must survive as well
+			real := e.Dir(fmt.Sprintf("W/realroot%d", k))
+			must(os.WriteFile(filepath.Join(real, "keep.bin"), []byte("keep"), 0o644))
+			must(os.Remove(root))
+			must(os.Symlink(real, root))
+		}
 		p := e.Worker(worker.Config{Root: root, AllowWrite: true, BufSize: 65536}, fmt.Sprintf("c05-empty%d", k), false, 0)
 		addr := p.HostPort()
 		w := &model.World{Root: root, AllowWrite: true, Views: model.PlainViews, Probe: func() error { return host.Probe(addr) }}
@@ -315,9 +323,16 @@ func c05EmptyRoot(e *Env) {
 		if res.Fail != nil {
 			judgeModelFail(e, res.Fail, reqs, res.FailAt, "", res.Fail.Feature, fmt.Sprintf("[empty root, allow_write=true, spelling %q] %s", spell, res.Fail.Detail), map[string]any{"root_spelling": spell, "requests": trimReqs(reqs), "transcript": tailStr(res.Log, 8)})
 		}
-		if _, err := os.Stat(root); err != nil {
-			run.Violate("remove-root", "empty-root", fmt.Sprintf("after DELETE/RMDIR %q on an empty root the served root directory is gone: %v", spell, err), map[string]any{"root_spelling": spell})
+		if _, err := os.Lstat(root); err != nil {
+			run.Violate("remove-root", pick2(k%2 == 1, "symlinked-root", "empty-root"), fmt.Sprintf("after DELETE/RMDIR %q the served root (%s) is gone from its parent directory: %v", spell, pick2(k%2 == 1, "a symbolic link to a non-empty directory", "an empty directory"), err), map[string]any{"root_spelling": spell})
 		}
 		p.Stop()
 	}
+}
+
+func pick2(c bool, a, b string) string {
+	if c {
+		return a
+	}
+	return b
 }
